@@ -17,17 +17,17 @@ Expr(left, aop, lop, op, right, minus, field, function, args, val) ==
    field |-> field, function |-> function, args |-> args, val |-> val]
 (* absent values: the string "None" for enum-valued options; for Expr-valued options and the argument list a record   *)
 (* of its own shape (TLC compares records of different shapes as unequal, but refuses to compare a record to a string) *)
-N == "None"
+NONE == "None"
 NE == [none |-> TRUE]
 IsNone(e) == DOMAIN e = {"none"}
 NoArgs == [some |-> FALSE, list |-> <<>>]
 Args(l) == [some |-> TRUE, list |-> l]
-EField(f, minus) == Expr(NE, N, N, N, NE, minus, f, N, NoArgs, N)
-EValue(v, minus) == Expr(NE, N, N, N, NE, minus, N, N, NoArgs, v)
-EOp(l, op, r) == Expr(l, N, N, op, r, FALSE, N, N, NoArgs, N)
-ELogical(l, lop, r) == Expr(l, N, lop, N, r, FALSE, N, N, NoArgs, N)
-EArith(l, aop, r) == Expr(l, aop, N, N, r, FALSE, N, N, NoArgs, N)
-EFunction(fn) == Expr(NE, N, N, N, NE, FALSE, N, fn, Args(<<>>), N)
+EField(f, minus) == Expr(NE, NONE, NONE, NONE, NE, minus, f, NONE, NoArgs, NONE)
+EValue(v, minus) == Expr(NE, NONE, NONE, NONE, NE, minus, NONE, NONE, NoArgs, v)
+EOp(l, op, r) == Expr(l, NONE, NONE, op, r, FALSE, NONE, NONE, NoArgs, NONE)
+ELogical(l, lop, r) == Expr(l, NONE, lop, NONE, r, FALSE, NONE, NONE, NoArgs, NONE)
+EArith(l, aop, r) == Expr(l, aop, NONE, NONE, r, FALSE, NONE, NONE, NoArgs, NONE)
+EFunction(fn) == Expr(NE, NONE, NONE, NONE, NE, FALSE, NONE, fn, Args(<<>>), NONE)
 Ok(e, i) == [ok |-> TRUE, e |-> e, i |-> i]
 Err(i) == [ok |-> FALSE, e |-> NE, i |-> i]
 
@@ -36,12 +36,12 @@ FieldOf(s) == LET t == Str(LowerSeq(s)) IN
   CASE t = "name" -> "Name" [] t = "size" -> "Size" [] t = "uid" -> "Uid" [] t = "gid" -> "Gid" [] t \in {"ext", "extension"} -> "Extension"
     [] t \in {"dir", "directory", "dirname"} -> "Directory" [] t = "path" -> "Path" [] t = "modified" -> "Modified" [] t = "hardlinks" -> "Hardlinks"
     [] t = "mode" -> "Mode" [] t = "is_dir" -> "IsDir" [] t = "is_file" -> "IsFile" [] t = "is_symlink" -> "IsSymlink" [] t = "line_count" -> "LineCount"
-    [] t = "is_hidden" -> "IsHidden" [] OTHER -> N
+    [] t = "is_hidden" -> "IsHidden" [] OTHER -> NONE
 BooleanFields == {"IsDir", "IsFile", "IsSymlink", "IsHidden"}
 FunctionOf(s) == LET t == Str(LowerSeq(s)) IN
   CASE t \in {"length", "len"} -> "Length" [] t \in {"lower", "lowercase", "lcase"} -> "Lower" [] t \in {"upper", "uppercase", "ucase"} -> "Upper"
     [] t \in {"substr", "substring"} -> "Substring" [] t = "abs" -> "Abs" [] t \in {"power", "pow"} -> "Power" [] t = "concat" -> "Concat"
-    [] t = "contains" -> "Contains" [] t \in {"curdate", "cur_date", "current_date"} -> "CurrentDate" [] OTHER -> N
+    [] t = "contains" -> "Contains" [] t \in {"curdate", "cur_date", "current_date"} -> "CurrentDate" [] OTHER -> NONE
 BooleanFunctions == {"Contains"}
 NoArgFunctions == {"CurrentDate"}
 
@@ -49,19 +49,19 @@ OpOf(s) == LET t == Str(LowerSeq(s)) IN
   CASE t \in {"=", "==", "eq"} -> "Eq" [] t \in {"!=", "<>", "ne"} -> "Ne" [] t \in {"===", "eeq"} -> "Eeq" [] t \in {"!==", "ene"} -> "Ene"
     [] t \in {">", "gt"} -> "Gt" [] t \in {">=", "gte", "ge"} -> "Gte" [] t \in {"<", "lt"} -> "Lt" [] t \in {"<=", "lte", "le"} -> "Lte"
     [] t \in {"~=", "=~", "regexp", "rx"} -> "Rx" [] t \in {"!=~", "!~=", "notrx"} -> "NotRx" [] t = "like" -> "Like" [] t = "notlike" -> "NotLike"
-    [] t = "between" -> "Between" [] OTHER -> N
+    [] t = "between" -> "Between" [] OTHER -> NONE
 NegateOp(op) == CASE op = "Eq" -> "Ne" [] op = "Ne" -> "Eq" [] op = "Eeq" -> "Ene" [] op = "Ene" -> "Eeq" [] op = "Gt" -> "Lte" [] op = "Lt" -> "Gte"
                   [] op = "Gte" -> "Lt" [] op = "Lte" -> "Gt" [] op = "Rx" -> "NotRx" [] op = "NotRx" -> "Rx" [] op = "Like" -> "NotLike"
                   [] op = "NotLike" -> "Like" [] op = "Between" -> "NotBetween" [] op = "NotBetween" -> "Between" [] OTHER -> op
 ArithOf(s) == LET t == Str(LowerSeq(s)) IN
   CASE t \in {"+", "plus"} -> "Add" [] t \in {"-", "minus"} -> "Subtract" [] t \in {"*", "mul"} -> "Multiply" [] t \in {"/", "div"} -> "Divide"
-    [] t \in {"%", "mod"} -> "Modulo" [] OTHER -> N
+    [] t \in {"%", "mod"} -> "Modulo" [] OTHER -> NONE
 
 RECURSIVE NegateExpr(_)
 NegateExpr(e) == IF IsNone(e) THEN e
                  ELSE [e EXCEPT !.left = NegateExpr(e.left), !.right = NegateExpr(e.right),
-                                !.op = IF e.op = N THEN N ELSE NegateOp(e.op),
-                                !.logical_op = IF e.logical_op = "And" THEN "Or" ELSE IF e.logical_op = "Or" THEN "And" ELSE N]
+                                !.op = IF e.op = NONE THEN NONE ELSE NegateOp(e.op),
+                                !.logical_op = IF e.logical_op = "And" THEN "Or" ELSE IF e.logical_op = "Or" THEN "And" ELSE NONE]
 
 K(toks, i) == IF i >= 1 /\ i <= Len(toks) THEN toks[i].k ELSE "eof"
 S(toks, i) == toks[i].s
@@ -112,14 +112,14 @@ PCond(toks, i0) ==
                 ELSE IF K(toks, j) = "operator"
                 THEN LET r == PAddSub(toks, j + 1)
                          op0 == OpOf(S(toks, j))
-                         op == IF op0 = N THEN N ELSE IF infixNot THEN NegateOp(op0) ELSE op0
-                     IN IF ~r.ok THEN r ELSE IF IsNone(l.e) \/ op = N \/ IsNone(r.e) THEN Err(r.i) ELSE Ok(EOp(l.e, op, r.e), r.i)
+                         op == IF op0 = NONE THEN NONE ELSE IF infixNot THEN NegateOp(op0) ELSE op0
+                     IN IF ~r.ok THEN r ELSE IF IsNone(l.e) \/ op = NONE \/ IsNone(r.e) THEN Err(r.i) ELSE Ok(EOp(l.e, op, r.e), r.i)
                 ELSE Ok(l.e, j)                 \* (an infix NOT without an operator stays consumed, as in the code)
           IN IF ~res.ok THEN res
              ELSE LET e == res.e
-                      short == IF ~IsNone(e) /\ e.field # N /\ IsNone(e.left) /\ IsNone(e.right) /\ e.field \in BooleanFields
+                      short == IF ~IsNone(e) /\ e.field # NONE /\ IsNone(e.left) /\ IsNone(e.right) /\ e.field \in BooleanFields
                                THEN EOp(EField(e.field, FALSE), "Eq", EValue("true", FALSE))
-                               ELSE IF ~IsNone(e) /\ e.field = N /\ e.function # N /\ IsNone(e.right) /\ e.args.list = <<>> /\ e.function \in BooleanFunctions
+                               ELSE IF ~IsNone(e) /\ e.field = NONE /\ e.function # NONE /\ IsNone(e.right) /\ e.args.list = <<>> /\ e.function \in BooleanFunctions
                                THEN EOp([EFunction(e.function) EXCEPT !.left = e.left], "Eq", EValue("true", FALSE))
                                ELSE e
                   IN Ok(IF pn.neg /\ ~IsNone(short) THEN NegateExpr(short) ELSE short, res.i)
@@ -157,8 +157,8 @@ PFuncScalar(toks, i0) ==
      THEN LET r == PParen(toks, i) IN IF ~r.ok \/ IsNone(r.e) THEN r ELSE Ok([r.e EXCEPT !.minus = ~@], r.i)
      ELSE IF K(toks, i) = "string" THEN Ok(EValue(Str(S(toks, i)), minus), i + 1)
      ELSE IF K(toks, i) = "raw"
-     THEN IF FieldOf(S(toks, i)) # N THEN Ok(EField(FieldOf(S(toks, i)), minus), i + 1)
-          ELSE IF FunctionOf(S(toks, i)) # N
+     THEN IF FieldOf(S(toks, i)) # NONE THEN Ok(EField(FieldOf(S(toks, i)), minus), i + 1)
+          ELSE IF FunctionOf(S(toks, i)) # NONE
           THEN LET r == PFunction(toks, i + 1, FunctionOf(S(toks, i))) IN IF ~r.ok THEN r ELSE Ok([r.e EXCEPT !.minus = minus], r.i)
           ELSE Ok(EValue((IF plus THEN "+" ELSE "") \o Str(S(toks, i)), minus), i + 1)
      ELSE Err(i + 1)
